@@ -543,6 +543,9 @@ func checkC12(P *Prog, r *Result) {
 	// the callbacks of a struct field run on the field of that name of *this* destination: the field is selected
 	// by the iteration's own key, not through an index cached from another destination type (C03's rule)
 	shareRule(P, r, checkC03, "C03/struct-writes-by-field", nil, "C12/callback-gets-own-field", 1)
+	// a Preprocess type mismatch becomes an issue and the wrapped schema is skipped - also when the mismatching value is
+	// a blank string, which the absence predicate calls absent: the node's decision order (C04's rule on Preprocess)
+	shareRule(P, r, checkC04, "C04/decision-shape", func(o Obligation) bool { return strings.Contains(o.Construct, "PreprocessSchema") }, "C12/preprocess-mismatch-is-an-issue", 0) // (no instance on a tree whose Preprocess node makes no absence decision at all)
 }
 
 // errResultGuardsIssue: the error result (last extract) of call c is compared
